@@ -1,5 +1,5 @@
 """C04 - ignored patterns are skipped exactly at token boundaries."""
-from contracts import core
+from contracts import core, segments
 from pyvc.report import Report
 from .common import run_fragments
 from . import wiring
@@ -13,6 +13,7 @@ def run(tier, seed):
                      'starts with the skip; every literal in every rule skips exactly once after success and nothing else requests _ignored; '
                      'expressions.visit reaches every child of every class.')
     run_fragments(rep, [core.StrC(), core.RegexC(), core.ByteC(), core.SkipC(), core.RegexPairC()], tier)
+    segments.SkipSegments().run(rep, tier)       # any number of ignore declarations: Skip for every arity
     wiring.visit_reaches_every_child(rep, tier)
     wiring.ignore_wiring_obligations(rep, tier)
     wiring.ignored_rule_is_memoised(rep, tier)
